@@ -15,7 +15,7 @@ CHECKS = {
 CHECKS["C01"] = dict(
    technique="property-based testing (Hypothesis): generated PEPit model programs x solver configurations; oracle = independent symbolic re-derivation of the dual certificate identity from the exposed multipliers",
    text="Generated-input search over DSL programs (all 24 classes, steps, several metrics, user constraints, LMIs, partitions) and configurations; for every finite solve the proof identity objective - tau = sum(lambda c) - <S,G> - sum<Lambda,M> is rebuilt coefficient by coefficient with an independent evaluator, signs / PSD-ness / shapes / returned constant are checked. Exploration with scale-relative solver tolerances; non-optimal statuses are inconclusive.",
-   note="Trusted: vf/sem.py, cvxpy+CLARABEL/SCS as numerical solvers. MOSEK path is judged in C11 against a stand-in. One open known finding (non-symmetric LMIs).",
+   note="Trusted: vf/sem.py, cvxpy+CLARABEL/SCS as numerical solvers. MOSEK path is judged in C11 against a stand-in. For LMIs that are not symmetric as written the oracle uses the entry multipliers the library exposes (PSDMatrix.entries_dual_variable_value) and checks that their symmetric part is the PSD multiplier.",
    design="DESIGN.md §3 C01")
 CHECKS["C02"] = dict(
    technique="property-based testing (Hypothesis): generated model programs with object histories around the solve; oracle = independent evaluation of every reachable object from the leaf values, Gram reconstruction, feasibility re-check",
